@@ -3,6 +3,9 @@
 # its own property and, if that does not report it, of the related properties; restores /repo after
 # each one.  Result table: /verif/out/mutants.tsv  (mutant, property, exit code, failed obligations)
 set -u
+# evidence files describe the UNCHANGED tree: keep them out of mutant runs
+rm -rf /verif/out/evidence.keep; cp -r /verif/evidence /verif/out/evidence.keep
+restore_evidence() { rm -rf /verif/evidence; cp -r /verif/out/evidence.keep /verif/evidence; }
 if [ -n "$(git -C /repo status --porcelain)" ]; then echo "REFUSING: /repo is dirty" >&2; exit 3; fi
 declare -A REL=( [C01]="C05 C09 C10" [C02]="C08 C06" [C03]="C10" [C04]="C11 C06" [C05]="C01 C06" [C06]="C05 C10 C02" [C07]="C10" [C08]="C02" [C09]="C10 C01" [C10]="C06 C09" [C11]="C04" [C12]="C09 C10" [C13]="C10" [C14]="C10" [C15]="C10" [C16]="C10" [C17]="C10" [C18]="C10" [C19]="C10" [C20]="" )
 claimed=" $(python3 -c "import json;print(' '.join(c['property_id'] for c in json.load(open('/verif/MANIFEST.json'))['checks']))") "
@@ -24,4 +27,5 @@ for d in /verif/seeded/*/; do
   done
   git -C /repo checkout -- . ; git -C /repo clean -fdq
 done
+restore_evidence
 echo SWEEPDONE >> $out
